@@ -132,6 +132,65 @@ def discharge_all(obs, timeout_ms):
             ob.status, ob.backend, ob.detail, ob.time = r
 
 
+def _second_job(txt):
+    from pyvc.state import run_z3_cli, run_cvc5
+    r = run_z3_cli(txt, 10)
+    if r not in ('unsat', 'sat'):
+        r2 = run_cvc5(txt, 10)
+        if r2 in ('unsat', 'sat'):
+            return 'cvc5:' + r2
+    return 'z3-4.8.12:' + r
+
+
+def second_opinion(obs):
+    """thorough tier: every obligation discharged by the in-process z3 5.1 is given to an independent solver binary
+    (z3 4.8.12, then cvc5 1.0.3 when that is undecided); a `sat` there against our `unsat` is a checker alarm"""
+    work = [(n, txt) for n, (ob, txt) in enumerate(obs) if txt is not None and ob.status == 'proved' and ob.kind != 'canary']
+    res = {'checked': len(work), 'agree': 0, 'undecided_by_second_solver': 0, 'disagree': []}
+    if not work:
+        return res
+    with multiprocessing.get_context('fork').Pool(16) as pool:
+        outs = pool.map(_second_job, [t for _, t in work], chunksize=4)
+    for (n, _), r in zip(work, outs):
+        if r.endswith(':unsat'):
+            res['agree'] += 1
+        elif r.endswith(':sat'):
+            res['disagree'].append({'obligation': obs[n][0].oid, 'path': obs[n][0].path, 'second': r})
+        else:
+            res['undecided_by_second_solver'] += 1
+    return res
+
+
+def seeded_selftest(prop):
+    """thorough tier: the stored seeded changes of this property are applied to scratch worktrees of the current /repo HEAD
+    and the quick check is run against each; a change that is no longer detected is reported (it does not change the
+    verdict about /repo itself)"""
+    sd = os.path.join(HERE, 'seeded')
+    ids = sorted(d for d in os.listdir(sd) if d.startswith(prop + '-')) if os.path.isdir(sd) else []
+    out = {'changes': ids, 'detected': [], 'not_detected': [], 'not_applicable': []}
+    for sid in ids:
+        wt = '/tmp/selftest_%s_%d' % (sid, os.getpid())
+        p = subprocess.run(['git', '-C', '/repo', 'worktree', 'add', '--detach', wt, 'HEAD'], capture_output=True, text=True)
+        if p.returncode != 0:
+            out['not_applicable'].append(sid)
+            continue
+        try:
+            p = subprocess.run(['git', '-C', wt, 'apply', os.path.join(sd, sid, 'patch.diff')], capture_output=True, text=True)
+            if p.returncode != 0:
+                out['not_applicable'].append(sid)         # the patch no longer applies to the current tree
+                continue
+            env = dict(os.environ, VERIF_REPO_ROOT=wt, VERIF_OUT='out/selftest/' + sid, VERIF_TIER='quick',
+                       VERIF_EVIDENCE_DIR=os.path.join(HERE, 'out', 'evidence_selftest', sid))
+            p = subprocess.run([sys.executable, os.path.join(HERE, 'check.py'), prop, '--tier', 'quick'], cwd=HERE, env=env,
+                               capture_output=True, text=True, timeout=1500)
+            (out['detected'] if p.returncode == 1 else out['not_detected']).append(sid)
+        except subprocess.TimeoutExpired:
+            out['not_detected'].append(sid)
+        finally:
+            subprocess.run(['git', '-C', '/repo', 'worktree', 'remove', '--force', wt], capture_output=True)
+    return out
+
+
 def start_native(prop, tier, seed):
     mod = registry.NATIVE.get(prop)
     if not mod or not os.path.exists(os.path.join(HERE, 'native', mod + '.py')):
@@ -191,7 +250,16 @@ def main():
     obs, infos, problems, assumptions, ledgers = generate(prop)
     timeout_ms = 10000 if tier == 'quick' else 30000
     discharge_all(obs, timeout_ms)
+    second = None
+    if tier == 'thorough':
+        second = second_opinion(obs)
+        if second['disagree']:
+            problems.append((3, 'SOLVER DISAGREEMENT (in-process z3 says unsat, the second solver sat) on %s'
+                             % [d['obligation'] for d in second['disagree'][:5]]))
     native = None if native_job is None else finish_native(native_job)
+    selftest = None
+    if tier == 'thorough' and not os.environ.get('VERIF_REPO_ROOT') and not a.no_native:
+        selftest = seeded_selftest(prop)
 
     # ---- aggregate per obligation id
     agg = {}
@@ -315,6 +383,7 @@ def main():
                                'findings': [f.get('key') for f in native.get('findings', [])],
                                'samples': native.get('samples', [])[:3]} if native else None),
             'undecided': undecided, 'checker_limits': limits,
+            'second_solver': second, 'seeded_selftest': selftest,
         },
         'assumptions': assumptions,
         'wall_s': round(time.time() - t0, 2),
@@ -340,6 +409,12 @@ def main():
         for l in vio_lines:
             print(l)
         return 1
+    if second:
+        print('%s: second solver: %d of %d agree, %d undecided there, %d disagree'
+              % (prop, second['agree'], second['checked'], second['undecided_by_second_solver'], len(second['disagree'])))
+    if selftest:
+        print('%s: seeded self-test: detected %s, not detected %s, patch not applicable %s'
+              % (prop, selftest['detected'], selftest['not_detected'], selftest['not_applicable']))
     if limits:
         for l in limits:
             print('CHECKER-LIMIT: ' + l)
